@@ -10,6 +10,7 @@ import (
 	"io"
 	"log/slog"
 	"net/http"
+	"os"
 	"sync"
 	"time"
 
@@ -209,6 +210,9 @@ type Stack struct {
 }
 
 func quietLogger() logger.StyledLogger {
+	if os.Getenv("VERIF_OLLA_LOG") != "" {
+		return logger.NewPlainStyledLogger(slog.New(slog.NewTextHandler(os.Stderr, &slog.HandlerOptions{Level: slog.LevelDebug})))
+	}
 	h := slog.NewTextHandler(io.Discard, &slog.HandlerOptions{Level: slog.Level(100)})
 	return logger.NewPlainStyledLogger(slog.New(h))
 }
